@@ -29,10 +29,11 @@
 (*               payload bytes, per-beat framing), parameters sampled with *)
 (*               the first beat (resp. the tx_zlp strobe)                  *)
 (*         tp  : NRDY / ERDY (kind, epn, addr; `want` = the kind the       *)
-(*               endpoint requested from the TP generator.  Two views of   *)
-(*               one execution are validated: the requests accepted by the *)
-(*               generator (kind = want) and the packets on the header     *)
-(*               queue (kind from the subtype on the wire))                *)
+(*               endpoint requested from the TP generator; `phase`:        *)
+(*               "both" where request and emission are one event -- the    *)
+(*               views at the handshake interface --, and in the wire view *)
+(*               "request" (generator took the ERDY request) followed by   *)
+(*               "emit" (the packet left the header queue))                *)
 (*         end : the execution was left quiet long enough that everything  *)
 (*               owed should have happened.                                *)
 (* Ref: packets assembled from the stream (`cur`, queue `q` with the age   *)
@@ -54,11 +55,12 @@ VARIABLES cfg,      \* [maxpkt, ep, addr, chkep]: endpoint configuration / obser
           infl,     \* NoPkt or [seq, b]: packet sent and not yet acknowledged
           req,      \* [on, retry, nrdyOk]: request the device has to answer
           flow,     \* "active" | "nrdy"
+          erdyPend, \* an ERDY was requested (while flow controlled) and is still queued towards the wire
           last_ev,  \* the event that led to this state
           accBytes, ackBytes,        \* ghost: bytes accepted from the stream / in acknowledged packets
           accEnds, ackEnds           \* ghost: byte offsets of transfer ends accepted / of acknowledged short packets
 
-evars == <<cfg, cur, q, seq, infl, req, flow, last_ev, accBytes, ackBytes, accEnds, ackEnds>>
+evars == <<cfg, cur, q, seq, infl, req, flow, erdyPend, last_ev, accBytes, ackBytes, accEnds, ackEnds>>
 
 NoPkt == [seq |-> 99, b |-> <<>>]
 NoReq == [on |-> FALSE, retry |-> FALSE, nrdyOk |-> FALSE]
@@ -84,7 +86,7 @@ ApplyW(ev, qq) ==
      /\ q' = qq \o push
      /\ accBytes' = accBytes \o ev.bytes
      /\ accEnds' = IF ev.last THEN Append(accEnds, Len(accBytes) + Len(ev.bytes)) ELSE accEnds
-     /\ UNCHANGED <<seq, infl, req, flow, ackBytes, ackEnds>>
+     /\ UNCHANGED <<seq, infl, req, flow, erdyPend, ackBytes, ackEnds>>
 
 ToUs(ev) == ev.ep = cfg.ep
 Awaiting == infl # NoPkt /\ ~req.on                      \* the host owes a verdict on the packet in flight
@@ -98,9 +100,9 @@ FailAck(ev) == IF ~ToUs(ev) THEN "ok"
                ELSE "ok"
 
 ApplyAck(ev, qq) ==
-  IF ~ToUs(ev) THEN q' = qq /\ UNCHANGED <<cur, seq, infl, req, flow, accBytes, ackBytes, accEnds, ackEnds>>
+  IF ~ToUs(ev) THEN q' = qq /\ UNCHANGED <<cur, seq, infl, req, flow, erdyPend, accBytes, ackBytes, accEnds, ackEnds>>
   ELSE /\ q' = qq
-       /\ UNCHANGED <<cur, flow, accBytes, accEnds>>
+       /\ UNCHANGED <<cur, flow, erdyPend, accBytes, accEnds>>
        /\ IF Accepts(ev)
           THEN /\ seq' = (seq + 1) % 32 /\ infl' = NoPkt
                /\ req' = [on |-> ev.nump >= 1, retry |-> FALSE, nrdyOk |-> NrdyOk(qq)]
@@ -138,7 +140,7 @@ ApplyDp(ev, qq) ==
      /\ req' = NoReq /\ flow' = "active"
      /\ IF req.retry THEN q' = qq /\ UNCHANGED infl
         ELSE q' = Tail(qq) /\ infl' = [seq |-> seq, b |-> qq[1].b]
-     /\ UNCHANGED <<cur, seq, accBytes, ackBytes, accEnds, ackEnds>>
+     /\ UNCHANGED <<cur, seq, erdyPend, accBytes, ackBytes, accEnds, ackEnds>>
 
 FailTp(ev) ==
      IF ev.kind \notin {"nrdy", "erdy"} THEN "tp_unexpected_subtype"
@@ -147,18 +149,24 @@ FailTp(ev) ==
      ELSE IF ev.addr # cfg.addr THEN "tp_device_address"
      ELSE IF ev.kind = "nrdy" /\ ~req.on THEN "nrdy_without_request"
      ELSE IF ev.kind = "nrdy" /\ (req.retry \/ ~req.nrdyOk) THEN "nrdy_while_holding_data"
-     ELSE IF ev.kind = "erdy" /\ flow # "nrdy" THEN "erdy_without_nrdy"
-     ELSE IF ev.kind = "erdy" /\ q = <<>> THEN "erdy_without_data"
+     \* An ERDY is judged when the endpoint asks for it (ev.phase = "request", or "both" where request and emission
+     \* are one event): the transaction packet may reach the wire later, even after a host that polled without
+     \* waiting for it has been served (ev.phase = "emit": only requires that it was asked for).
+     ELSE IF ev.kind = "erdy" /\ ev.phase = "emit" /\ ~erdyPend THEN "erdy_without_request"
+     ELSE IF ev.kind = "erdy" /\ ev.phase # "emit" /\ flow # "nrdy" THEN "erdy_without_nrdy"
+     ELSE IF ev.kind = "erdy" /\ ev.phase # "emit" /\ q = <<>> THEN "erdy_without_data"
      ELSE "ok"
 
 ApplyTp(ev, qq) ==
      /\ q' = qq
-     /\ IF ev.kind = "nrdy" THEN req' = NoReq /\ flow' = "nrdy"
-        ELSE flow' = "active" /\ UNCHANGED req
+     /\ IF ev.kind = "nrdy" THEN req' = NoReq /\ flow' = "nrdy" /\ UNCHANGED erdyPend
+        ELSE IF ev.phase = "emit" THEN erdyPend' = FALSE /\ UNCHANGED <<req, flow>>
+        ELSE flow' = "active" /\ erdyPend' = (ev.phase = "request") /\ UNCHANGED req
      /\ UNCHANGED <<cur, seq, infl, accBytes, ackBytes, accEnds, ackEnds>>
 
 FailEnd == IF req.on THEN "request_unanswered"
            ELSE IF flow = "nrdy" /\ q # <<>> THEN "erdy_missing"
+           ELSE IF erdyPend THEN "erdy_requested_but_not_sent"
            ELSE "ok"
 
 -----------------------------------------------------------------------------
@@ -176,9 +184,10 @@ Apply(ev, dt) ==
        [] ev.e = "ack" -> ApplyAck(ev, qq)
        [] ev.e = "dp"  -> ApplyDp(ev, qq)
        [] ev.e = "tp"  -> ApplyTp(ev, qq)
-       [] OTHER        -> q' = qq /\ UNCHANGED <<cur, seq, infl, req, flow, accBytes, ackBytes, accEnds, ackEnds>>
+       [] OTHER        -> q' = qq /\ UNCHANGED <<cur, seq, infl, req, flow, erdyPend, accBytes, ackBytes, accEnds, ackEnds>>
 
 InitWith(c) == /\ cfg = c /\ cur = <<>> /\ q = <<>> /\ seq = 0 /\ infl = NoPkt /\ req = NoReq /\ flow = "active"
+               /\ erdyPend = FALSE
                /\ last_ev = [e |-> "init"]
                /\ accBytes = <<>> /\ ackBytes = <<>> /\ accEnds = <<>> /\ ackEnds = <<>>
 
